@@ -248,6 +248,12 @@ def check_special_cases(ctx):
         else:
             ctx.analysed(mul)
             p = positional_params(mul.node)[0]
+            # every exit of the arm emits a function call carrying the node's operands: an exit that answers with a native value
+            # computed from *some* operands (a literal built from args[0], say) silently drops the other factors
+            from ..common import exit_exprs as _exits
+
+            odd = [e for e in _exits(mul.node) if not (isinstance(e, ast.Call) and dotted(e.func) == "FunctionCall")]
+            ctx.check(not odd, R3, mul.key + ":exits", "every exit of the product arm is a FunctionCall over the node's operands", f"the product arm has an exit returning {short(odd[0], 70) if odd else ''}, which is not a function call over the operands of the product: whatever factors that expression does not read are dropped from the translated expression", f"{mul.module.relpath}:{odd[0].lineno}" if odd else mul)
             calls = [c for c in body_walk(mul.node) if isinstance(c, ast.Call) and dotted(c.func) == "FunctionCall" and const_str(c.args[0]) == "div"]
             guard = [s for s in mul.node.body if isinstance(s, ast.If) and norm(s.test) == f"is_multiplication_by_reciprocal({p})"]
             ok = False
